@@ -33,6 +33,15 @@ CLAIMED = {
         "markdown-it link normalisation is the identity.",
         "exhaustive small-pair enumeration + Hypothesis; reference-model oracle (DP matcher, brute-force filter)",
     ),
+    "C08": (
+        "Exhaustive contents (<=4/5 lines over a 12-line vocabulary, with and without final newline) x 36 synthetic "
+        "directive shapes x first lines, plus Hypothesis-generated option blocks for every directive class in the "
+        "docutils/Sphinx/domain registries (~150 'programs'); reference model of the documented split, the class's own "
+        "converters as value oracle; bounded search.",
+        "Tokenization of simple 'key: value' option lines is taken from the tokenizer verified by C07; trailing blank "
+        "body lines are don't-care.",
+        "exhaustive vocabulary enumeration over class shapes + Hypothesis over registry classes; reference-model oracle",
+    ),
     "C16": (
         "Hypothesis markup soup (totality, termination, tree consistency), grammar-generated well-formed HTML and "
         "exhaustive forests of <=4/5 nodes (exact round trip, copy/strip isolation, find = brute-force filter), "
